@@ -22,7 +22,7 @@ oracle : on the implementation alone: every outcome is a value or a runtime erro
 import os
 import vcommon as V
 import eval_util as EU
-from gen import evalgen, simgen, builtingen, histgen, graphgen
+from gen import evalgen, simgen, builtingen, histgen, graphgen, pathgen
 from checks import c07 as C07
 
 
@@ -110,7 +110,7 @@ def run_sims(ctx, model, impl, thorough):
         ireq.append(_req(mods, rq))
         mreq.append("sim ((error))")
         n_pos += 1
-    n = 20000 if thorough else 2500
+    n = 20000 if thorough else 1500
     for _ in range(n):
         k = rng.random()
         rq = simgen.gen_requests(rng)
@@ -192,7 +192,7 @@ def run_histories(ctx, impl, thorough):
     stats = {}
     cases = [("growth %s ~%d then idle %ds" % (n, size, idle), prog, ops) for n, size, idle, prog, ops in histgen.growth_sweep()]
     n_sweep = len(cases)
-    for _ in range(600 if thorough else 25):
+    for _ in range(600 if thorough else 15):
         prog, ops = histgen.gen_history(rng, stats)
         cases.append(("random", prog, ops))
     reqs = ["main=%s %s" % (prog.encode().hex(), ops) for _, prog, ops in cases]
@@ -216,6 +216,36 @@ def run_histories(ctx, impl, thorough):
                                  "clock_jumps_s": histgen.JUMPS}
     ctx.samples += [{"history": cases[-1][2][:200], "interpreter": rep[-1]}]
     return total, len(set(reqs))
+
+
+def run_paths(ctx, impl, thorough):
+    """LIFECYCLE ACTION PATHS x CACHE STATE: on one simulator a warming request (or none) followed by two requests whose
+    subroutines take, per restart round, every assignment of {restart from a scope | end by delivery or by an error raised
+    in a scope}: all paths with 0 and 1 restart, the 2-restart paths (quick: first round through the cache; thorough: all),
+    warm and cold.  Oracle: every request ends with a response or a reported error, no panic / hang, restarts <= 3."""
+    hs = list(pathgen.histories(thorough))
+    reqs = ["main=%s %s" % (p.encode().hex(), ";".join("%s=%s=%s" % (m, u.encode().hex(), h.encode().hex()) for m, u, h in r)) for _, p, r in hs]
+    rep = V.run_batch(impl + ["simrun"], reqs, hang_s=3, mem_kb=4_000_000, max_failures=12)
+    out = {}
+    n = 0
+    for (label, prog, rq), r in zip(hs, rep):
+        replay = {"path": label, "program": prog, "requests": rq, "impl": r}
+        if _bad(r):
+            ctx.violation("a request on a lifecycle path does not end in a response or a runtime error (%s): %s" % (label, (r or "no reply")[:140]), replay)
+            continue
+        for w in r.split():
+            st, rs, er, cl, lg = w.split(":")
+            n += 1
+            k = "%s after %s restart(s)" % ("error" if er == "1" else "response", rs)
+            out[k] = out.get(k, 0) + 1
+            if int(rs) > 3:
+                ctx.violation("a request on a lifecycle path was restarted %s times (%s)" % (rs, label), replay)
+    ctx.coverage["lifecycle_paths"] = {"histories": len(hs), "requests": n, "outcomes": dict(sorted(out.items())),
+                                       "restart_rounds": sorted(pathgen.restart_rounds()), "end_rounds": sorted(pathgen.END_ROUNDS),
+                                       "two_restart_paths": "all" if thorough else "first round through the cache (%s), one restart spelling for the second" % ", ".join(pathgen.THROUGH_CACHE),
+                                       "cache_states": ["warm (object stored by an earlier request)", "cold"], "exhaustive": True}
+    ctx.samples += [{"path": hs[300][0], "interpreter": rep[300]}]
+    return n, len(set(reqs))
 
 
 def run_graphs(ctx, model, impl, thorough):
@@ -323,7 +353,8 @@ def run(ctx):
     n3, d3 = run_sims(ctx, model, impl, thorough)
     n4, d4 = run_histories(ctx, impl, thorough)
     n5, d5 = run_graphs(ctx, model, impl, thorough)
-    n3, d3 = n3 + n4 + n5, d3 + d4 + d5
+    n6, d6 = run_paths(ctx, impl, thorough)
+    n3, d3 = n3 + n4 + n5 + n6, d3 + d4 + d5 + d6
     if not proved and not ctx.violations:
         ctx.violation("proof obligation of C08 no longer checks: " + (ctx.broken or "Props/C08.v"),
                       {"no_failing_input": True, "broken": ctx.broken,
